@@ -22,7 +22,7 @@ from ..astutil import (
 from ..cfg import CFG, head_calls
 from ..core import AnalysisError, Mutant
 from ..program import ClassIndex
-from ..exprnorm import has_code
+from ..exprnorm import has_code, same_expr
 
 EXPLANATION = (
     "Typestate and resource discipline of biotite.application decided from the "
@@ -307,14 +307,41 @@ def run(ctx):
             calls_ = [(k_, st.value) for k_, st in enumerate(f_.body) if isinstance(st, ast.Expr) and isinstance(st.value, ast.Call)]
             temp_ = [k_ for k_, c_ in calls_ if call_name(c_) == "cleanup_tempfile"]
             risky_ = [k_ for k_, c_ in calls_ if call_name(c_) not in ("cleanup_tempfile", "super().clean_up")]
-            if not temp_:
+            all_temp_ = [c_ for c_ in ast.walk(f_) if isinstance(c_, ast.Call) and call_name(c_) == "cleanup_tempfile"]
+            if not all_temp_:
                 continue
             n_cu += 1
+            # ... and whatever the run did: a temporary file is removed on every way through clean_up (a run that failed, was cancelled or
+            # timed out never reached the state a condition may ask for)
+            # (`if self._x_file is not None: cleanup_tempfile(self._x_file)` asks whether THAT file was created at all: as good as a statement)
+            own_test_ = [c_ for st_ in f_.body if isinstance(st_, ast.If) and not st_.orelse and len(st_.body) == 1 and isinstance(st_.body[0], ast.Expr)
+                         for c_ in [st_.body[0].value] if isinstance(c_, ast.Call) and call_name(c_) == "cleanup_tempfile" and len(c_.args) == 1
+                         and same_expr(st_.test, ast.unparse(c_.args[0]) + " is not None")]
+            ctx.ob("R2.tempfiles-removed-unconditionally", rel_, q_, f"{len(all_temp_)} cleanup_tempfile call(s), {len(temp_) + len(own_test_)} on every way through clean_up",
+                   len(all_temp_) == len(temp_) + len(own_test_),
+                   "a temporary file that is removed only under a condition stays behind when the run ends another way", f_.lineno)
             ctx.ob("R2.tempfiles-removed-first", rel_, q_, f"{len(temp_)} cleanup_tempfile call(s), {len(risky_)} other call(s)",
                    not risky_ or max(temp_) < min(risky_),
                    "a call that raises (removing a file the tool never wrote because the run failed or was cancelled) leaves the temporary "
                    "files that come after it on disk", f_.lineno)
     ctx.floor("clean_up-with-tempfiles", n_cu, 5)
+    # MAFFT labels the leaves of its guide tree `<n>_<name>`: the prefix that is cut off is a number of ANY length followed by `_`
+    # (the pattern is a literal: it is evaluated on three labels)
+    import re as _re
+    mf = ctx.src("application/mafft/app.py")
+    pat = mf.module_assign("_prefix_pattern")
+    lit = pat.args[0] if isinstance(pat, ast.Call) and call_name(pat) == "re.compile" and pat.args and isinstance(pat.args[0], ast.Constant) else None
+    ok_pat = False
+    if lit is not None and isinstance(lit.value, str) and len(pat.args) == 1 and not pat.keywords:
+        try:
+            rx = _re.compile(lit.value)
+            ok_pat = all(_re.sub(rx, "", a_) == b_ for a_, b_ in (("(1_0:1.0,10_9:2.0);", "(0:1.0,9:2.0);"), ("123_45", "45"), ("7_x", "x")))
+        except _re.error:
+            ok_pat = False
+    ctx.ob("R6.mafft-tree-labels", "application/mafft/app.py", "<module>", f"_prefix_pattern = {ast.unparse(pat)[:40]}",
+           ok_pat and has_code(mf.func("MafftApp.evaluate"), "re.sub(_prefix_pattern, '', raw_newick)"),
+           "with ten or more sequences the running number has two digits: a pattern for one digit leaves `1` in front of the index (leaf 10_9 "
+           "becomes 19)", 1)
     # the polling join gives up only on a job that is NOT finished: the TimeoutError is raised under the fact
     # `get_app_state() != FINISHED` of the same iteration (a job that finished long ago and is joined late is evaluated, not cancelled)
     from ..facts import facts_at as _facts_at
